@@ -38,7 +38,7 @@ Qed.
 Lemma read_src_cinv d mi mo pi po p d' : d_active d = true -> cinv d mi mo pi po -> UB d pi po ->
   read_src d = Ret (p, d') -> cinv d' mi mo pi po /\ UB d' pi po.
 Proof.
-  intros Act C U. pose proof C as [Hss Hds Hne Fs Fd R B W].
+  intros Act C U. pose proof C as [Hss Hds Sep Nw Fs Fd R B W].
   unfold read_src. rewrite Act. cbn [negb].
   destruct (d_sg d =? 0); [discriminate|]. cbv zeta.
   destruct (w64 (b_off (d_buf d) + d_bufsize d) <=? sub64 (d_next_read d / d_sg d * d_sg d) (v_saddr (d_req d))).
@@ -62,12 +62,15 @@ Proof.
     rewrite port_of_with_port by assumption. destruct (d_sside d =? s) eqn:E; [lia|reflexivity]. }
   assert (Fresh : forall id, In id (idlist d pi po (d_sside d)) -> id <> d_next_id d).
   { intros id Hin. destruct (U _ Hss) as [_ Fr]. pose proof (Fr id Hin). lia. }
+  assert (Pall : forall s, port_of du s = port_of (sent d (d_sside d) m) s) by reflexivity.
   split.
-  - destruct R as [R1 [R2 R3]].
-    constructor; [exact Hss|exact Hds|exact Hne|exact Fs|exact Fd| |exact B|].
+  - destruct R as [R1 R2].
+    constructor; [exact Hss|exact Hds|exact Sep| |exact Fs|exact Fd| |exact B|].
+    + intros s Hs id a x Hin. rewrite Pall in Hin. apply (sent_ports d (d_sside d) m s _ Hss Hs) in Hin.
+      destruct Hin as [[_ Heq]|Hin]; [discriminate|apply (Nw s Hs id a x Hin)].
     + change (port_of du (d_sside du)) with (port_of du (d_sside d)). rewrite Pss.
       change (d_pread du) with ((d_next_id d, addr) :: d_pread d). cbn [p_out p_in].
-      split; [|split].
+      split.
       * intros id a n Hin a' Ha'. apply in_snoc_mid in Hin. cbn [aget] in Ha'. destruct Hin as [Heq|Hin].
         -- inversion Heq; subst. rewrite N.eqb_refl in Ha'. inversion Ha'. split; reflexivity.
         -- assert (id <> d_next_id d).
@@ -77,9 +80,10 @@ Proof.
         assert (id <> d_next_id d).
         { apply Fresh. unfold idlist. fold q. apply in_or_app. right. apply (in_map rid) in Hin. exact Hin. }
         destruct (d_next_id d =? id) eqn:E; [lia|]. apply (R2 id x Hin a Ha).
-      * intros id a x Hin. apply in_snoc_mid in Hin. destruct Hin as [Heq|Hin]; [discriminate|apply (R3 id a x Hin)].
-    + change (port_of du (d_dside du)) with (port_of du (d_dside d)).
-      rewrite (Pother _ Hds ltac:(congruence)). exact W.
+    + change (port_of du (d_dside du)) with (port_of du (d_dside d)). rewrite Pall.
+      apply (WB_eqw (port_of d (d_dside d)) (pick (d_dside d) pi po)); [|exact W].
+      intros id a x. rewrite (proj2 (sent_ports d (d_sside d) m (d_dside d) _ Hss Hds)).
+      split; [intros [[_ Heq]|H]; [discriminate|exact H]|auto].
   - apply (UB_send d du pi po (d_sside d) m Hss); [reflexivity|reflexivity|exact Pss|exact Pother|exact U].
 Qed.
 
@@ -104,7 +108,7 @@ Qed.
 Lemma write_dst_cinv d mi mo pi po p d' : d_active d = true -> sinv d -> cinv d mi mo pi po -> UB d pi po ->
   write_dst d = Ret (p, d') -> cinv d' mi mo pi po /\ UB d' pi po.
 Proof.
-  intros Act S C U. pose proof C as [Hss Hds Hne Fs Fd R B W].
+  intros Act S C U. pose proof C as [Hss Hds Sep Nw Fs Fd R B W].
   unfold write_dst. rewrite Act. cbn [negb].
   destruct S as [gs gd ms md ws wd sal sside [rd1 [rd2 rd3]] [wr1 [wr2 wr3]] bg bo ch pr pn].
   set (v := d_req d) in *. set (sg := d_sg d) in *. set (dg := d_dg d) in *.
@@ -149,9 +153,17 @@ Proof.
   assert (Pother : forall s, s <= 1 -> s <> d_dside d -> port_of du s = port_of d s).
   { intros s Hs Hn. unfold du, port_of, pick. cbn [d_inside d_outside upd with_port].
     destruct (d_dside d =? 0) eqn:E0, (s =? 0) eqn:E1; try reflexivity; lia. }
+  assert (Pall : forall s, port_of du s = port_of (sent d (d_dside d) m) s).
+  { intro s. unfold du, sent, port_of, pick. cbn [d_inside d_outside upd with_port]. fold (pick (d_dside d) (d_inside d) (d_outside d)). reflexivity. }
   split.
-  - constructor; [exact Hss|exact Hds|exact Hne|exact Fs|exact Fd| | |].
-    + change (port_of du (d_sside du)) with (port_of du (d_sside d)). rewrite (Pother _ Hss Hne). exact R.
+  - constructor; [exact Hss|exact Hds|exact Sep| |exact Fs|exact Fd| | |].
+    + intros s Hs id a x Hin. rewrite Pall in Hin. apply (sent_ports d (d_dside d) m s _ Hds Hs) in Hin.
+      destruct Hin as [[Heq _]|Hin]; [exact Heq|apply (Nw s Hs id a x Hin)].
+    + change (port_of du (d_sside du)) with (port_of du (d_sside d)). rewrite Pall.
+      destruct (sent_ports d (d_dside d) m (d_sside d) (pick (d_sside d) pi po) Hds Hss) as [Pi Po].
+      apply (RB_mono (port_of d (d_sside d)) (pick (d_sside d) pi po) _ _ (d_pread d) _ _ _); [| |auto|exact R].
+      * intros id a n Hin. apply Po in Hin. destruct Hin as [[_ Heq]|Hin]; [discriminate|exact Hin].
+      * intros id x. rewrite Pi. tauto.
     + (* the moved buffer *)
       change (d_buf du) with bf. change (d_req du) with v. change (d_sside du) with (d_sside d). change (d_sg du) with sg.
       destruct Mc as [[-> _]|[Mo [Mlt Mn]]]; [exact B|].
